@@ -1,7 +1,10 @@
 """Conformance of nsl/lexer.py with spec/Lexer.tla (spec -> code): TLC scans every text over a 12-character alphabet up
 to a length and a list of probe texts (keywords, suffixes, exponents, operators, illegal characters, line feeds), checks the
 scanner's own invariants (Covers, Progress, Maximal) and prints the token sequence; the same texts go through the real PLY
-scanner and the two sequences (type, text, offset, line) and the illegal-character offsets are compared."""
+scanner.  Two outcomes are kept apart: (1) what property C20 states - every token the real scanner reports lies at the offset and on the
+line where its characters are - is evaluated on the scanner's own output and is a verdict; (2) a difference in how the text is split into
+tokens (or in a token's class) is a divergence between Lexer.tla and the code that no listed property forbids: it is printed as a
+CONFORMANCE-NOTE and counted in the evidence, never a violation."""
 import io
 import json
 import contextlib
@@ -58,17 +61,33 @@ def work(recs):
         try:
             toks, errs, nmsg = real_scan(text)
         except BaseException as e:  # noqa
-            out.append(("lexer-raises:" + type(e).__name__, f"text {text!r}: the scanner raises {type(e).__name__}: {e}", {"text": text}))
+            out.append(("NOTE:lexer-raises:" + type(e).__name__, f"text {text!r}: the scanner raises {type(e).__name__}: {e}", {"text": text}))
             continue
         got = [{"type": norm_type(t["type"]), "text": t["text"], "pos": t["pos"], "line": t["line"]} for t in toks]
+        # what C20 states, evaluated on the scanner's own output (the specification's invariant Covers and its line counter):
+        # every token lies where its characters are, on the line they are on, in order and without overlap
+        bad = None
+        end = 0
+        for k, t in enumerate(got):
+            if text[t["pos"]:t["pos"] + len(t["text"])] != t["text"] or t["pos"] < end or len(t["text"]) == 0:
+                bad = (k, f"its characters {t['text']!r} are not at offset {t['pos']} (or overlap the previous token)")
+            elif t["line"] != 1 + text.count("\n", 0, t["pos"]):
+                bad = (k, f"it is reported on line {t['line']}, its offset {t['pos']} lies on line {1 + text.count(chr(10), 0, t['pos'])}")
+            if bad:
+                break
+            end = t["pos"] + len(t["text"])
+        if bad:
+            out.append(("token-position", f"text {text!r}: token {bad[0]} {got[bad[0]]}: {bad[1]}", {"text": text, "scanner": got}))
+            continue
         if got != want:
             k = next((i for i, (a, b) in enumerate(zip(got, want)) if a != b), min(len(got), len(want)))
             which = "type" if k < len(got) and k < len(want) and got[k]["text"] == want[k]["text"] and got[k]["pos"] == want[k]["pos"] and got[k]["type"] != want[k]["type"] else \
                     "line" if k < len(got) and k < len(want) and {x: got[k][x] for x in ("type", "text", "pos")} == {x: want[k][x] for x in ("type", "text", "pos")} else "split"
-            out.append((f"token-{which}", f"text {text!r}: token {k} is {got[k] if k < len(got) else None}, the lexical grammar gives {want[k] if k < len(want) else None}",
+            # a different split or token class is a divergence from Lexer.tla, not a wrong position: reported as a note
+            out.append((f"NOTE:token-{which}", f"text {text!r}: token {k} is {got[k] if k < len(got) else None}, Lexer.tla gives {want[k] if k < len(want) else None}",
                         {"text": text, "scanner": got, "specification": want}))
         elif errs != r["errs"] or nmsg != len(r["errs"]):
-            out.append(("illegal-characters", f"text {text!r}: illegal characters reported at {errs} ({nmsg} message(s)), the lexical grammar has them at {r['errs']}", {"text": text}))
+            out.append(("NOTE:illegal-characters", f"text {text!r}: illegal characters reported at {errs} ({nmsg} message(s)), Lexer.tla has them at {r['errs']}", {"text": text}))
         else:
             out.append((None, "ok", None))
     return out
@@ -92,6 +111,12 @@ def run_lexer_conformance(ctx, maxlen):
         for key, what, case in out:
             if key is None:
                 counts["ok"] = counts.get("ok", 0) + 1
+            elif key.startswith("NOTE:"):
+                counts[key] = counts.get(key, 0) + 1
+                if counts[key] <= 3:
+                    msg = f"CONFORMANCE-NOTE (not a verdict on any listed property): nsl/lexer.py differs from spec/Lexer.tla: {what}"
+                    print(msg)
+                    ctx.notes.append(msg)
             else:
                 counts[key] = counts.get(key, 0) + 1
                 ctx.violation("lexer:" + key, what, case)
